@@ -28,10 +28,19 @@ def _nonexc(e: Edge) -> bool:
 
 def _sentinel(p) -> Optional[str]:
     u = p.unit(A)
-    for n in u.tree.body:
-        if isinstance(n, ast.Assign) and isinstance(n.value, ast.Call) and isinstance(n.value.func, ast.Name) \
-                and n.value.func.id == 'object' and not n.value.args and isinstance(n.targets[0], ast.Name):
-            return n.targets[0].id
+
+    def obj_names(unit):
+        return [n.targets[0].id for n in unit.tree.body
+                if isinstance(n, ast.Assign) and isinstance(n.value, ast.Call) and isinstance(n.value.func, ast.Name)
+                and n.value.func.id == 'object' and not n.value.args and isinstance(n.targets[0], ast.Name)]
+    here = obj_names(u)
+    if here:
+        return here[0]
+    # ... defined in another module of the package and imported under a name of this module
+    for local, full in u.aliases.items():
+        for u2 in p.units.values():
+            if u2 is not u and full.startswith(u2.modname + '.') and full[len(u2.modname) + 1:] in obj_names(u2):
+                return local
     return None
 
 
@@ -533,7 +542,7 @@ def c17(ctx: Ctx) -> None:
     stores = [n for n in gg.nodes if n.kind == 'store_sub' and isinstance(n.ast.value, ast.Name)]
     if not stores:
         ctx.violation('C17-R3', 'no lock table store', f'{A}:{gl.lineno}', construct=construct_key('_get_loop_lock', 'no store'))
-    u_ = p.unit(A)
+    u_ = gl.unit        # the module that holds the lock table (asyncio.py, or the private module it was moved to)
     module_locks = [n.targets[0].id for n in u_.tree.body if isinstance(n, ast.Assign) and isinstance(n.targets[0], ast.Name)
                     and isinstance(n.value, ast.Call) and Resolver(u_.module_scope).path(n.value.func) in ('threading.Lock', 'threading.RLock')]
     held_all = held_locks(gg, module_locks)
@@ -562,15 +571,23 @@ def c17(ctx: Ctx) -> None:
     # who may remove an entry: nothing but the finalizer registered at creation (the loop object is gone then)
     tables_ = {s.ast.value.id for s in stores}
     n_rm = 0
-    for fsc in u_.functions():
+    def _is_table(fsc_, nm_: str) -> bool:
+        """does the name denote the lock table in this function (the table's own module, or a module importing it)?"""
+        bs_ = fsc_.binding_scope(nm_)
+        if bs_ is u_.module_scope:
+            return nm_ in tables_
+        if bs_ is not None and bs_.kind == 'module':
+            full_ = fsc_.unit.aliases.get(nm_, '')
+            return any(full_ == f'{u_.modname}.{t_}' for t_ in tables_)
+        return False
+    for fsc in [f_ for uu in p.units.values() for f_ in uu.functions()]:
         for x in own_nodes(fsc.node):
             rm = None
             if isinstance(x, ast.Call) and isinstance(x.func, ast.Attribute) and isinstance(x.func.value, ast.Name) \
-                    and x.func.value.id in tables_ and x.func.attr in ('pop', 'popitem', 'clear') \
-                    and fsc.binding_scope(x.func.value.id) is u_.module_scope:
+                    and x.func.attr in ('pop', 'popitem', 'clear') and _is_table(fsc, x.func.value.id):
                 rm = x
-            elif isinstance(x, ast.Delete) and any(isinstance(t_, ast.Subscript) and isinstance(t_.value, ast.Name) and t_.value.id in tables_
-                                                  and fsc.binding_scope(t_.value.id) is u_.module_scope for t_ in x.targets):
+            elif isinstance(x, ast.Delete) and any(isinstance(t_, ast.Subscript) and isinstance(t_.value, ast.Name)
+                                                  and _is_table(fsc, t_.value.id) for t_ in x.targets):
                 rm = x
             if rm is not None:
                 n_rm += 1
@@ -1151,7 +1168,13 @@ def c19(ctx: Ctx) -> None:
                 ctx.undecided('C19-R1', f'{norm(tc.ast)}', gp.loc(tc), f'slicing {norm(k_e)} / {norm(v_e)} not understood')
     # R2
     unpacks = [n for n in gp.nodes if n.kind == 'unpack' and n.meta.get('arity') == 2 and isinstance(n.meta.get('value'), ast.Call)]
-    raises_ve = [r_ for r_ in gp.nodes if r_.kind == 'raise' and isinstance(r_.ast.exc, ast.Call) and norm(r_.ast.exc.func) == 'ValueError']
+    def _is_value_error(r_: Node) -> bool:
+        ex = r_.ast.exc
+        if ex is None:
+            return False
+        rx = resolve(gp, r_, ex)      # (a nested helper that builds the exception is looked through)
+        return isinstance(rx, ast.Call) and norm(rx.func) == 'ValueError'
+    raises_ve = [r_ for r_ in gp.nodes if r_.kind == 'raise' and _is_value_error(r_)]
     for un in unpacks:
         ee = [e for e in gp.succ[un.id] if e.label == 'exc' and e.classes and 'ValueError' in e.classes]
         hs = [e.dst for e in ee if e.dst.kind == 'except']
@@ -1324,7 +1347,8 @@ def c19(ctx: Ctx) -> None:
         ctx.violation('C19-R4', f'returns of {tryp.name}: {[norm(r_.ast.value) for r_ in rets]}', f'{PA}:{tryp.lineno}',
                       'the guarded parser returns something other than parse(x) or x', construct=construct_key(tryp.qualname, 'returns'))
     # R5: the two variants of the tuple parser under `if parse_keys`
-    pt = [c for c in f.children if c.kind == 'function' and c is not pair and c is not tryp]
+    # (a tuple parser takes a key and a value; other nested helpers - a message builder, a splitter - are not variants of it)
+    pt = [c for c in f.children if c.kind == 'function' and c is not pair and c is not tryp and len(c.params) == 2]
     from ..match import closure_value
 
     def is_identity(name: str) -> bool:
